@@ -5,6 +5,7 @@ import re
 import shutil
 
 import common
+common.memo_generator_polys()
 
 MARKER = bytes([0xFE, 0xFF] * 5)
 DELIM = bytes([0xFA, 0xFF, 0xFA, 0xFF, 0xFA])
